@@ -33,7 +33,24 @@ HEADER = ("From PintV Require Import Model.UC Model.Eval Model.Grammar Model.Eva
           "Definition n2 := TNum \"2\". Definition n3 := TNum \"3\". Definition nm := TName \"m\".\n"
           "Definition ns := TName \"s\". Definition o (s : string) := TOp s.\n"
           "Definition B := Grammar.Bin.\n")
-RUN = "(c07_ok EvalTables.op_priority)"
+def run_expr(f16):
+    return f"(c07_ok {'true' if f16 else 'false'} EvalTables.op_priority)"
+
+
+F16_WITNESS = [("num", "6"), ("op", "/"), ("num", "2"), ("op", "("), ("num", "1"), ("op", "+"), ("num", "2"),
+               ("op", ")"), ("other", ""), ("end", "")]
+
+
+def f16_switch(ck):
+    """replay the F16 witness on the implementation: True = defect present (groups as 6/(2(1+2))),
+    False = repaired (((6/2)(1+2))), None = neither"""
+    r = pint_build(F16_WITNESS)
+    ck.extra["f16_witness"] = {"tokens": "6 / 2 ( 1 + 2 )", "pint_tree": r[1]}
+    if r == ("tree", "(6 / (2 (1 + 2)))"):
+        return True
+    if r == ("tree", "((6 / 2) (1 + 2))"):
+        return False
+    return None
 
 # ----------------------------------------------------------------------------- expression trees
 # ("num", text) ("name", text) ("neg", x) ("pos", x) ("bin", op, l, r) ("par", x)
@@ -277,8 +294,7 @@ def token_level(ck, rng, thorough):
     alpha_big = [("num", "2"), ("name", "m"), ("op", "+"), ("op", "-"), ("op", "*"), ("op", "**"),
                  ("op", "("), ("op", ")"), ("other", "")]
     alpha_small = [("num", "2"), ("name", "m"), ("op", "-"), ("op", "/"), ("op", "**"), ("op", "("), ("op", ")")]
-    if not thorough:
-        alpha_small = alpha_small[1:]      # quick: 6 tokens (m - / ** ( )) up to length 5
+    alpha_small = alpha_small[1:]          # 6 tokens: m - / ** ( )
     plans = [(alpha_big, 5 if thorough else 4), (alpha_small, 6 if thorough else 5)]
     seen = set()
     n_seq = 0
@@ -311,10 +327,12 @@ def token_level(ck, rng, thorough):
                 sig = [t for t in body if t[0] != "other"]
                 dangling = bool(sig) and sig[-1][0] == "op" and sig[-1][1] != ")"
                 if r[0] == "tree" and bad_bal:
-                    oracle_fail.append(("unbalanced-value:" + toks_text(toks), "unbalanced parentheses yield a value",
+                    oracle_fail.append(("unbalanced-value:" + toks_text(toks),
+                                        f"unbalanced parentheses yield a value: tokens '{toks_text(toks)}' -> {r[1]}",
                                         {"tokens": toks, "pint": r}))
                 if r[0] == "tree" and dangling:
-                    oracle_fail.append(("dangling-value:" + toks_text(toks), "dangling operator yields a value",
+                    oracle_fail.append(("dangling-value:" + toks_text(toks),
+                                        f"dangling operator yields a value: tokens '{toks_text(toks)}' -> {r[1]}",
                                         {"tokens": toks, "pint": r}))
     ck.count("exhaustive token sequences", n_seq)
 
@@ -326,8 +344,8 @@ def token_level(ck, rng, thorough):
     trees += all_trees(2, leafset, BOPS, ["neg", "pos"])
     if thorough:
         trees += all_trees(3, leafset, BOPS, ["neg"])
-        trees += all_trees(4, leafset, BOPS, [])
-        trees += rng.sample(all_trees(3, leafset, BOPS, ["neg", "pos"]), 6000)
+        trees += rng.sample(all_trees(4, leafset, BOPS, []), 20000)
+        trees += rng.sample(all_trees(3, leafset, BOPS, ["neg", "pos"]), 4000)
     else:
         trees += rng.sample(all_trees(3, leafset, BOPS, ["neg"]), 1500)
         trees += rng.sample(all_trees(4, leafset, BOPS, []), 1500)
@@ -434,12 +452,23 @@ def run(ck):
     rng = random.Random(ck.seed)
     thorough = ck.tier == "thorough"
     ck.rule = ("token level: ALL token sequences over a 9-token alphabet up to length 4 (thorough 5) and over a "
-               "6-token alphabet up to length 5 (thorough: 7 tokens up to length 6), each + ENDMARKER; all Par-free expression trees with "
+               "6-token alphabet up to length 5 (thorough 6), each + ENDMARKER; all Par-free expression trees with "
                "<= 3 leaves over {2, m} x 9 operators, all with <= 2 leaves x unary +/- at every node, samples of "
-               "3-leaf trees with unary minus and of 4-leaf trees (thorough: all of both: + all trees "
-               "with 4 leaves and unary minus everywhere), random trees with 5..25 leaves, each rendered minimal and fully parenthesised; "
+               "3-leaf trees with unary minus and of 4-leaf trees (thorough: all 3-leaf trees with unary minus, "
+               "20000 4-leaf trees), random trees with 5..25 leaves, each rendered minimal and fully parenthesised; "
                "malformed streams by token mutation. string level: see coverage.string_level. non-trivial = "
                "distinct (stream, input) with at least one operator")
+    ck.trusted += ["translator T2 (harness/t2_eval.py, Python ast, fail-closed) and the Python mirror of the Spec's "
+                   "render/legal in harness/c07.py (compared with Grammar.render case by case inside Coq)"]
+    ck.extra["claims"] = {
+        "full": ["parse_render (every expression, both parenthesis styles, any redundant groups; [TEnd] and [NEWLINE; TEnd])",
+                 "pow_right_assoc", "unary_vs_pow", "left_assoc", "juxt_is_mul", "eval_is_python",
+                 "no_value_on_unbalanced (all token lists)", "no_value_on_dangling (all token lists)", "literals_keep_type",
+                 "ties: op_priority, binary/unary key sets, model algebra = tables, static no-execution scan"],
+        "refuted": ["paren_juxt (F16): witnesses 6/2(1+2), 2**(3)(4); guarded statement = parse_render under `legal`"],
+        "partial": ["string preprocessing (regexes) and Python's tokenize are not modelled: string-level differential stream only (a test)",
+                    "no-execution clause on the real code: static scan of pint_eval.py (theorem) + audit-hook fuzz stream (a test)"],
+    }
     ck.assumptions += [
         "Python's tokenize and re (string_preprocessor) are not modelled: covered by the string-level differential stream only",
         "no-execution clause on the real code: static scan (T2) + audit-hook fuzz stream, a test",
@@ -464,6 +493,10 @@ def run(ck):
     t0 = time.time()
     from .common import NCPU
     shard = max(400, min(2500, -(-len(cases) // max(1, NCPU))))
+    sw = f16_switch(ck)
+    RUN = run_expr(sw is not False)
+    ck.extra["f16_switch"] = {True: "defect present (model: build)", False: "repaired (model: build_fixed)",
+                              None: "neither behaviour (model: build)"}[sw]
     bad = ck.coq_mismatches("c07", HEADER, cases, RUN, shard=shard) if ok else None
     timing["token_level_model_s"] = round(time.time() - t0, 1)
     ck.extra["timing"] = timing
